@@ -19,6 +19,7 @@ RULE = ("random Hamiltonians of dimension 2-5 (degenerate levels, with/without R
         "generator, with/without Lorentzian pure dephasing; grids of 4-30 points, dense steps 1-20, modes 'all' and 'jit' (save on/off, 1..Nt-1 incremental steps), "
         "apply() with scalar times, 'all', the object's own axis, lists, tuples, arrays and other TimeAxis objects. distinct = (generator class, dim, grid, dense step, "
         "mode history, rounded generator); non-trivial iff U(t_last) differs from the identity by more than 1e-3 and the generator is dissipative or non-diagonal.")
+RULE = RULE + " Round-6 workloads: states stored as real and as integer arrays are applied at single times (both copy flags) and at all times."
 ASSUMPTIONS = ["the semigroup law is checked in the frame the object reports through is_in_rwa",
                "refinement clause: ||U_n - U_2n|| <= bound(n) + bound(2n) with the a-priori Taylor bound of the order-4 expansion on the dense step"]
 MIN_NONTRIVIAL = {"quick": 40, "thorough": 300}
